@@ -74,7 +74,10 @@ def run_cli(args, cwd, timeout=120):
                 return rel if form == 1 else "./" + rel
             return a
         args = [respell(a) if i > 0 and args[i - 1].startswith("--") and not a.startswith("-") else a for i, a in enumerate(args)]
-    p = subprocess.run([PY, str(REPO / "suit_generator" / "cli.py")] + args, cwd=cwd, env=env, capture_output=True, text=True, timeout=timeout)
+    try:
+        p = subprocess.run([PY, str(REPO / "suit_generator" / "cli.py")] + args, cwd=cwd, env=env, capture_output=True, text=True, timeout=timeout)
+    except subprocess.TimeoutExpired:
+        return None, f"no answer within {timeout} s"
     return p.returncode, (p.stdout + p.stderr)[-1500:]
 
 
@@ -110,6 +113,24 @@ def call_main(main, cwd, **kwargs):
         return main(**kwargs)
     finally:
         os.chdir(old)
+
+
+def run_ncs_build(args, cwd, core_config=None, timeout=120):
+    """ncs/build.py as the NCS build system starts it (a script with --core / --zephyr-base and a sub-command), in its own interpreter"""
+    env = dict(os.environ)
+    env["PYTHONPATH"] = str(REPO)
+    kc = core_config
+    if kc is None:
+        kc = os.path.join(cwd, "core.config")
+        if not os.path.exists(kc):
+            with open(kc, "w") as fh:
+                fh.write("CONFIG_BOARD=\"nrf54h20dk\"\n")
+    cmd = [PY, str(REPO / "ncs" / "build.py"), str(args[0]), "--core", f"sysbuild,,,{kc}", "--zephyr-base", str(cwd)] + [str(a) for a in args[1:]]
+    try:
+        p = subprocess.run(cmd, cwd=cwd, env=env, capture_output=True, text=True, timeout=timeout)
+    except subprocess.TimeoutExpired:
+        return None, f"no answer within {timeout} s"
+    return p.returncode, (p.stdout + p.stderr)[-1500:]
 
 
 def spellings(n: int):
@@ -294,7 +315,7 @@ class Driver:
     """The native Lean model driver behind a JSON-lines pipe."""
 
     def __init__(self):
-        self.p = subprocess.Popen([str(DRIVER)], stdin=subprocess.PIPE, stdout=subprocess.PIPE, text=True, bufsize=1)
+        self.p = subprocess.Popen([str(DRIVER)], stdin=subprocess.PIPE, stdout=subprocess.PIPE, text=True, bufsize=1, preexec_fn=_unlimit_memory)
         self.calls = 0
 
     def call(self, req: dict) -> dict:
@@ -405,6 +426,10 @@ def finish(res: Result, st: StageA, rule: str, level_note: list[str], obligation
     discharged = [t for t in exp if t in short and set(short[t]) <= ALLOWED_AXIOMS] if st.ok_proofs else []
     violations = 0
     lines = []
+    # inputs on which the tool never answered (or took its interpreter down) are failing inputs: the property promises an outcome for them
+    for fname, item, what in PMAP_FAILURES[:3]:
+        res.spec_failures.insert(0, {"harness_function": fname, "item": json.loads(json.dumps(item, default=lambda o: o.hex() if isinstance(o, (bytes, bytearray)) else repr(o)))
+                                     if not isinstance(item, (bytes, bytearray)) else item.hex(), "what": f"the tool did not finish on this input: {what}"})
     # stage C failures: concrete violation
     for f in res.spec_failures[:5]:
         path = write_replay(prop, {"kind": "property-fails-on-implementation", **f})
@@ -500,20 +525,123 @@ def worker_driver() -> "Driver":
     return _worker_driver
 
 
+# inputs on which the tool gave no answer (endless loop, runaway memory, a dead interpreter): (function name, item, what happened)
+PMAP_FAILURES: list = []
+WORKER_MEMORY_LIMIT = 3 << 30
+
+
+def _limit_memory():
+    """a runaway allocation in the tool ends in MemoryError inside the worker instead of taking the machine (and the check) down"""
+    import resource
+    try:
+        soft, hard = resource.getrlimit(resource.RLIMIT_AS)
+        lim = WORKER_MEMORY_LIMIT if hard == resource.RLIM_INFINITY else min(WORKER_MEMORY_LIMIT, hard)
+        resource.setrlimit(resource.RLIMIT_AS, (lim, hard))
+    except Exception:  # noqa
+        pass
+
+
+def _unlimit_memory():
+    import resource
+    try:
+        soft, hard = resource.getrlimit(resource.RLIMIT_AS)
+        resource.setrlimit(resource.RLIMIT_AS, (hard, hard))
+    except Exception:  # noqa
+        pass
+
+
 def _pmap_init():
     ensure_repo_on_path()
     import logging
     logging.disable(logging.CRITICAL)
+    _limit_memory()
 
 
-def pmap(func, items, workers=None, chunk=64):
-    """order-preserving parallel map (fork); `func` may call worker_driver()"""
+def _run_chunk(fc):
+    func, xs = fc
+    return [func(x) for x in xs]
+
+
+def _isolated(func, item, timeout):
+    """`func(item)` in a forked child of its own with a time limit; returns (result, None) or (None, what happened)"""
+    import multiprocessing as mp
+    ctx = mp.get_context("fork")
+    rd, wr = ctx.Pipe(duplex=False)
+
+    def child():
+        global _worker_driver
+        _worker_driver = None
+        _pmap_init()
+        try:
+            wr.send(("ok", func(item)))
+        except BaseException as e:  # noqa
+            try:
+                wr.send(("exc", f"{type(e).__name__}: {e}"[:500]))
+            except BaseException:  # noqa
+                pass
+        finally:
+            os._exit(0)
+    p = ctx.Process(target=child)
+    p.start()
+    wr.close()
+    try:
+        if rd.poll(timeout):
+            try:
+                kind, val = rd.recv()
+            except EOFError:
+                p.join(5)
+                return None, f"the interpreter died (exit code {p.exitcode})"
+            return (val, None) if kind == "ok" else (None, "the harness function raised " + val)
+        return None, f"no answer within {timeout} s"
+    finally:
+        if p.is_alive():
+            p.kill()
+        p.join(5)
+        rd.close()
+
+
+def pmap(func, items, workers=None, chunk=64, chunk_timeout=420, item_timeout=90):
+    """order-preserving parallel map (fork); `func` may call worker_driver().
+
+    A worker that never answers (endless loop in the tool) or dies (killed for its memory) must not hang the check: every chunk has a time limit;
+    when it passes, the pool is dropped and the outstanding items are run one by one, each in a process of its own with a time limit.  An item
+    without an answer yields None and is recorded in PMAP_FAILURES, which `finish` reports as a failing input."""
     import multiprocessing as mp
 
+    items = list(items)
     workers = workers or min(16, os.cpu_count() or 4)
     if len(items) < 2 * chunk or workers <= 1:
-        _pmap_init()
+        ensure_repo_on_path()
+        import logging
+        logging.disable(logging.CRITICAL)
         return [func(x) for x in items]
     ctx = mp.get_context("fork")
-    with ctx.Pool(workers, initializer=_pmap_init) as pool:
-        return pool.map(func, items, chunksize=chunk)
+    out = []
+    pool = ctx.Pool(workers, initializer=_pmap_init)
+    try:
+        chunks = [(func, items[i:i + chunk]) for i in range(0, len(items), chunk)]
+        it = pool.imap(_run_chunk, chunks)
+        try:
+            for _ in chunks:
+                out += it.next(timeout=chunk_timeout)
+        except mp.TimeoutError:
+            pass
+    finally:
+        pool.terminate()
+        pool.join()
+    if len(out) == len(items):
+        return out
+    # isolation mode for what is outstanding (bounded: the items of the chunks in flight first; the rest is skipped)
+    from concurrent.futures import ThreadPoolExecutor
+    rest = items[len(out):]
+    budget = rest[: max(workers * chunk * 2, 400)]
+
+    def one(x):
+        r, what = _isolated(func, x, item_timeout)
+        if what is not None:
+            PMAP_FAILURES.append((getattr(func, "__name__", "?"), x, what))
+        return r
+    with ThreadPoolExecutor(max_workers=workers) as ex:
+        out += list(ex.map(one, budget))
+    out += [None] * (len(items) - len(out))
+    return out
